@@ -1,1 +1,43 @@
-From GV Require Import Pool.Model Pool.Observe Pool.Monitors.
+From GV Require Import Pool.Model Pool.Observe Pool.Monitors Pool.InvC06.
+
+(* C06: no operation gets stuck and the balancer mutex is free after each one;
+   only a round-robin BIND call may be left waiting, and a call still waiting has
+   neither a READY channel nor an ended context (every call that can proceed has
+   returned).  For every history (harness-legal or not) and every oracle; no guard. *)
+Theorem C06_holds : forall raw ops,
+  monitor P06 raw (observe init_bal) (run raw init_bal ops) = true.
+Proof. exact C06_holds_proof. Qed.
+Print Assumptions C06_holds.
+
+(* in particular no event of any model run is stuck *)
+Theorem C06_no_stuck : forall raw ops ev, In ev (run raw init_bal ops) -> ev_ret ev <> RStuck.
+Proof. exact no_stuck. Qed.
+Print Assumptions C06_no_stuck.
+
+(* non-vacuity: two round-robin BINDs wait; one is released by its deadline, one by its channel *)
+Example c06_history :
+  let raw := Some (mkConfig 2 4 1 false 0 0 true [(1%N, mkMcfg BIND true)]) in
+  let ops := [(OpResolver 1 CfgVal, []); (OpConnState 0 Ready, []); (OpConnState 0 Connecting, []);
+              (OpPick 0 1 true [] (Some 10%Z) false, []); (OpPick 0 1 true [] None false, []);
+              (OpAdvance 5, []); (OpAdvance 5, []); (OpConnState 1 Ready, [])] in
+  map ev_ret (run raw init_bal ops) = [RNone; RNone; RNone; RBlocked; RBlocked; RNone; RNone; RNone] /\
+  map ev_ub (run raw init_bal ops) = [[]; []; []; []; []; []; [(0%nat, 0%N)]; [(1%nat, 1%N)]] /\
+  monitor P06 raw (observe init_bal) (run raw init_bal ops) = true.
+Proof. vm_compute. repeat split; reflexivity. Qed.
+
+(* the monitor rejects a waiting call whose channel is READY *)
+Example c06_bad_waits_on_ready :
+  let o1 := mkObs true 1 1 0 0 Ready [] [] [(0%N, Ready)] [(0%N, 0%nat)] [mkSlot 0 0 0 0 0 false 0]
+                  4294967295 [] false (PSnap [0%nat]) 1 0 true in
+  let o2 := mkObs true 1 1 0 0 Ready [] [] [(0%N, Ready)] [(0%N, 0%nat)] [mkSlot 0 0 0 0 0 false 0]
+                  0 [] false (PSnap [0%nat]) 1 0 true in
+  mon_from P06 (Some (mkConfig 1 4 1 false 0 0 true [(1%N, mkMcfg BIND true)]))
+    (mkMstate [PSnap [0%nat]] (Some (Ready, PSnap [0%nat])) [] [] [] [] false
+              (Some (Some (mkConfig 1 4 1 false 0 0 true [(1%N, mkMcfg BIND true)]))) 0) o1
+    [mkEvent (OpPick 0 1 true [] None false) [] RBlocked [] (Some o2)] = false.
+Proof. vm_compute. reflexivity. Qed.
+
+(* ... and a stuck operation *)
+Example c06_bad_stuck :
+  monitor P06 None (observe init_bal) [mkEvent (OpResolver 1 CfgNil) [] RStuck [] None] = false.
+Proof. vm_compute. reflexivity. Qed.
